@@ -295,7 +295,7 @@ func (x *Exec) symValue(st *State, name string, t types.Type, entry bool) Val {
 // ---------------------------------------------------------------- running
 
 func (x *Exec) newState() *State {
-	st := &State{Heap: map[string]string{}, Fwd: map[string]Val{}, Fresh: map[string]bool{}, Notes: map[string]bool{}, Dirty: map[string]bool{}, Log: map[string]*logNode{}, FreshSeq: map[string]int{}, Older: map[string]int{}}
+	st := &State{Heap: map[string]string{}, Fwd: map[string]Val{}, Fresh: map[string]bool{}, Notes: map[string]bool{}, Dirty: map[string]bool{}, Flags: map[string]bool{}, Log: map[string]*logNode{}, FreshSeq: map[string]int{}, Older: map[string]int{}, PostEntry: map[string]bool{}}
 	st.NonNil = map[string]bool{}
 	st.AllocBase = x.fresh(st, "wm0", SInt)
 	st.WM0 = st.AllocBase
@@ -694,6 +694,7 @@ func (x *Exec) enterBlock(st *State, fr *Frame, b *ssa.BasicBlock) []*State {
 		for _, iv := range invs {
 			g := x.evalClause(st, fr, iv, nil, nil)
 			st.assume(g)
+			x.notePostEntry(st, fr, iv.E)
 		}
 		fr.Cut[b.Index] = true
 		return nil
@@ -739,6 +740,7 @@ func (x *Exec) havocLoop(st *State, fr *Frame, h *loopHdr) {
 		if p.Comment != "" {
 			fr.Dbg[p.Comment] = nv
 		}
+		x.markOlderVal(st, nv)
 		x.bumpForVal(st, nv)
 	}
 	// objects allocated by earlier iterations lie below everything allocated from now on
@@ -878,9 +880,8 @@ func (x *Exec) zeroRow(st *State, et types.Type, r Term) {
 	for _, cpn := range comps(et) {
 		name := elemPrefix(et) + cpn.Suffix
 		inner := arrSort(SInt, cpn.Sort)
-		a := x.heapCur(st, name, arrSort(SInt, inner))
 		zero := Term{"((as const " + inner + ") " + zeroTerm(cpn.Sort).S + ")", inner}
-		x.heapSet(st, name, StoreT(a, r, zero))
+		x.writeRow(st, name, inner, r, zero)
 	}
 }
 
@@ -1807,4 +1808,44 @@ func (x *Exec) feasible(st *State, cond Term) bool {
 		return false
 	}
 	return true
+}
+
+// notePostEntry: fresh(e) conjuncts of an assumed clause tell the engine that the
+// reference was allocated after function entry (used for syntactic disjointness).
+func (x *Exec) notePostEntry(st *State, fr *Frame, e Expr) {
+	for _, c := range flattenAnd(e) {
+		call, ok := c.(ECall)
+		if !ok || call.Fn != "fresh" || len(call.Args) != 1 {
+			continue
+		}
+		env, old := x.clauseEnv(st, fr, nil, nil)
+		v, err := x.evalExpr(&evalCtx{x: x, st: st, old: old, env: env, fr: fr}, call.Args[0])
+		if err != nil {
+			continue
+		}
+		r := v.T
+		if v.K == VSlice {
+			r = v.Ref
+		}
+		st.PostEntry[r.S] = true
+	}
+}
+
+// markOlderVal: the references in v denote objects that exist now.
+func (x *Exec) markOlderVal(st *State, v Val) {
+	switch v.K {
+	case VScalar:
+		if v.T.Sort == SInt && v.GoT != nil {
+			switch v.GoT.Underlying().(type) {
+			case *types.Pointer, *types.Slice, *types.Map, *types.Chan:
+				st.markOlder(v.T)
+			}
+		}
+	case VSlice:
+		st.markOlder(v.Ref)
+	case VStruct, VTuple:
+		for _, p := range v.Parts {
+			x.markOlderVal(st, p)
+		}
+	}
 }
